@@ -8,6 +8,8 @@ import (
 	"encoding/json"
 	"fmt"
 	"os"
+	"runtime"
+	"runtime/pprof"
 
 	"verifharness/checks/c15"
 	"verifharness/lib"
@@ -56,6 +58,27 @@ func main() {
 		os.Exit(2)
 	}
 	r := lib.NewReport(os.Args[1])
+	if p := os.Getenv("VERIF_PPROF"); p != "" {
+		if pf, err := os.Create(p); err == nil {
+			_ = pprof.StartCPUProfile(pf)
+		}
+	}
+	if p := os.Getenv("VERIF_MUTEXPROF"); p != "" {
+		runtime.SetMutexProfileFraction(5)
+		runtime.SetBlockProfileRate(10000)
+		defer func() {}()
+	}
 	f(r)
+	pprof.StopCPUProfile()
+	if p := os.Getenv("VERIF_MUTEXPROF"); p != "" {
+		if pf, err := os.Create(p); err == nil {
+			_ = pprof.Lookup("mutex").WriteTo(pf, 0)
+			pf.Close()
+		}
+		if pf, err := os.Create(p + ".block"); err == nil {
+			_ = pprof.Lookup("block").WriteTo(pf, 0)
+			pf.Close()
+		}
+	}
 	r.Finish()
 }
